@@ -278,10 +278,13 @@ func checkC18(c any, r *Rec) error {
 		ps := p.Str()
 		parts := strings.Split(ps, ":")
 		if len(parts) != 2 {
+			// refused today; Django / Python also read "N" as [:N] and an empty argument as the
+			// whole sequence, and "a:b:c" has a step - none of this is stated, so it is not asserted
 			if ferr == nil {
-				return fail("a slice argument without exactly one ':' must be an error")
+				r.Class("slice:other-format-accepted")
+			} else {
+				r.Class("slice:bad-format-rejected")
 			}
-			r.Class("slice:bad-format-rejected")
 			return nil
 		}
 		if e := noErr(); e != nil {
